@@ -232,6 +232,12 @@ class Manager(ServerBase):
 
         return self.conn_to_employee_dict[conn].recipient_string
 
+    def handle_disconnect(self, conn: Connection) -> None:
+        """Remove `conn`; losing the boss shuts this manager down."""
+        super().handle_disconnect(conn)
+        if conn == self.upstream:
+            self.handle_shutdown()
+
     def handle_shutdown(self) -> None:
         """Shutdown the manager and clean up spawned processes."""
         super().handle_shutdown()
